@@ -807,7 +807,17 @@ def _tail(log):
 
 
 def obligations(work, keys):
-    """One obligation per key of TARGETS (see FOR['C05'] etc.)."""
+    """One obligation per key of TARGETS (see FOR['C05'] etc.).  Never raises: any failure of
+    the machinery itself is reported as a broken obligation."""
+    try:
+        return _obligations(work, keys)
+    except Exception as e:  # noqa
+        return [{'name': f'T-int {k}: {TARGETS[k]["statement"]}',
+                 'status': f'broken: T-int machinery failed: {type(e).__name__}: {e}'[:400], 'assumptions': None}
+                for k in keys]
+
+
+def _obligations(work, keys):
     os.makedirs(work, exist_ok=True)
     out = {}
     fns = list(dict.fromkeys(TARGETS[k]['fn'] for k in keys))
@@ -816,6 +826,8 @@ def obligations(work, keys):
             {f'theories/{k.split("/")[1]}_Model.vo' for k in keys}))
     except Exception as e:  # noqa
         rc, log = 1, repr(e)
+    if rc == 0 and common.forbidden_scan(['theories/Base/PyInt.v']):
+        rc, log = 1, 'forbidden vernacular in Base/PyInt.v'
     if rc != 0:
         return [{'name': f'T-int {k}', 'status': 'broken: Base/PyInt.v or the model did not build: ' + _tail(log)}
                 for k in keys]
